@@ -668,11 +668,11 @@ func runCorpusUnit(t *testing.T, unit string, dirs []string, strict bool, fams [
 var mainHeavy = []string{famMain, famMain, famMain, famMain, famMain, famMain, famYAML11, famDate, famAliasRaw, famAliasRef, famMerge}
 
 func TestCorpus(t *testing.T) {
-	runCorpusUnit(t, "corpus", []string{"positive", "examples"}, false, mainHeavy, vk.N(3, 30))
+	runCorpusUnit(t, "corpus", []string{"positive", "examples"}, false, mainHeavy, vk.N(2, 20))
 }
 
 func TestNegative(t *testing.T) {
-	runCorpusUnit(t, "negative", []string{"negative"}, true, mainHeavy, vk.N(10, 150))
+	runCorpusUnit(t, "negative", []string{"negative"}, true, mainHeavy, vk.N(6, 100))
 }
 
 func lastPart(e string) string {
